@@ -118,4 +118,180 @@ theorem ksubsets_relabel (k s : Nat) (hs : s &&& RP.Hands.handMask (shortOf cfg)
 
 end relabel
 
+/-! ## valid seven-card hands of a river observation -/
+
+theorem isHand_facts {short : Bool} {k m y : Nat} (h : RP.C06.IsHand short k m y) :
+    y < 2^52 ∧ popW 52 y = k := by
+  obtain ⟨h1, _, h3⟩ := (RP.C06.isHand_iff _ _ _ _).mp h
+  exact ⟨h3, by rw [← RP.C06.popW_eq_of_lt h3 (by omega : 52 ≤ 64)]; exact h1⟩
+
+/-- a holding listed for the blocked set of `seen` is a hand of the deck avoiding `seen` -/
+theorem isHand_of_mem {short : Bool} {k seen u : Nat}
+    (hu : u ∈ ksubsets 52 k (RP.C06.blocked short seen)) : RP.C06.IsHand short k seen u := by
+  obtain ⟨h1, h2, h3⟩ := (RP.C06.mem_ksubsets _ _ _ _).mp hu
+  exact (RP.C06.isHand_iff _ _ _ _).mpr ⟨by rw [RP.C06.popW_eq_of_lt h1 (by omega : 52 ≤ 64)]; exact h2, h3, h1⟩
+
+/-- the union of two disjoint hands of the deck with 5..7 cards in total is a valid hand for C01 -/
+theorem valid_union (cfg : RP.Eval.Cfg) {kx ky mx my x y : Nat}
+    (hx : RP.C06.IsHand (shortOf cfg) kx mx x) (hy : RP.C06.IsHand (shortOf cfg) ky my y)
+    (hd : x &&& y = 0) (h5 : 5 ≤ kx + ky) (h7 : kx + ky ≤ 7) : RP.C01.ValidHand cfg (x ||| y) := by
+  have fx := isHand_facts hx
+  have fy := isHand_facts hy
+  refine ⟨?_, ?_, ?_⟩
+  · rw [← handMask_link, Nat.and_or_distrib_right, hx.2.2, hy.2.2]
+  · rw [RP.C06.popW_or_disjoint 52 x y hd, fx.2, fy.2]; exact h5
+  · rw [RP.C06.popW_or_disjoint 52 x y hd, fx.2, fy.2]; exact h7
+
+theorem valid_seen (cfg : RP.Eval.Cfg) {p b : Nat} (ho : RiverObs (shortOf cfg) p b) :
+    RP.C01.ValidHand cfg (p ||| b) :=
+  valid_union cfg ho.1 ho.2 (by rw [Nat.and_comm]; exact ho.2.2.1) (by decide) (by decide)
+
+theorem valid_seven (cfg : RP.Eval.Cfg) {p b u : Nat} (ho : RiverObs (shortOf cfg) p b)
+    (hu : u ∈ ksubsets 52 2 (RP.C06.blocked (shortOf cfg) (p ||| b))) :
+    RP.C01.ValidHand cfg (b ||| u) := by
+  have hU := isHand_of_mem hu
+  have hd : b &&& u = 0 := by
+    have := (RP.C06.and_or_zero hU.2.1).2
+    rw [Nat.and_comm]; exact this
+  exact valid_union cfg ho.2 hU hd (by decide) (by decide)
+
+theorem seen_inDeck {short : Bool} {kp kb p b : Nat} (hp : RP.C06.IsHand short kp 0 p) (hb : RP.C06.IsHand short kb p b) :
+    (p ||| b) &&& RP.Hands.handMask short = p ||| b := by
+  rw [Nat.and_or_distrib_right, hp.2.2, hb.2.2]
+
+theorem strengthKey_relabel (cfg : RP.Eval.Cfg) (π : List Nat) (hπ : π ∈ RP.Gen.permExhaust) (h : Nat)
+    (hv : RP.C01.ValidHand cfg h) :
+    RP.Eval.strengthKey cfg (RP.C01.relabel π h) = RP.Eval.strengthKey cfg h := by
+  simp only [RP.Eval.strengthKey, RP.C01.strength_relabel cfg π hπ h hv]
+
+/-! ## (1) the river counts are invariant under every suit relabeling -/
+
+/-- **C07_river_counts_invariant**: for both decks, every one of the 24 suit relabelings and
+    every river observation, the `(wins, total)` pair computed by the composed model (hand
+    iterator + evaluator + counting fold — the function the driver runs) is the same for the
+    relabeled observation -/
+theorem C07_river_counts_invariant (cfg : RP.Eval.Cfg) (π : List Nat) (hπ : π ∈ RP.Gen.permExhaust)
+    (p b : Nat) (ho : RiverObs (shortOf cfg) p b) :
+    riverCounts cfg (shortOf cfg) (RP.C01.relabel π p) (RP.C01.relabel π b) =
+      riverCounts cfg (shortOf cfg) p b := by
+  have hdeck := seen_inDeck ho.1 ho.2
+  have hperm := ksubsets_relabel cfg π hπ 2 (p ||| b) hdeck
+  simp only [riverCounts]
+  rw [← RP.C01.relabel_or π hπ, RP.C06.C06_hands_complete _ 2 _ (by decide) (by decide),
+    RP.C06.C06_hands_complete _ 2 _ (by decide) (by decide)]
+  generalize hL : ksubsets 52 2 (RP.C06.blocked (shortOf cfg) (p ||| b)) = L at hperm
+  generalize ksubsets 52 2 (RP.C06.blocked (shortOf cfg) (RP.C01.relabel π (p ||| b))) = L' at hperm
+  have hmem : ∀ u ∈ L, RP.C01.ValidHand cfg (b ||| u) := by
+    intro u hu; rw [← hL] at hu; exact valid_seven cfg ho hu
+  have key := C07_invariant_on (RP.Eval.strengthKey cfg) (RP.C01.relabel π) (p ||| b)
+    (L.map (b ||| ·)) (L'.map (RP.C01.relabel π b ||| ·))
+    (strengthKey_relabel cfg π hπ _ (valid_seen cfg ho))
+    (by
+      intro h hh
+      obtain ⟨u, hu, rfl⟩ := List.mem_map.mp hh
+      exact strengthKey_relabel cfg π hπ _ (hmem u hu))
+    (by
+      have h1 := hperm.map (RP.C01.relabel π b ||| ·)
+      have h2 : (L.map (b ||| ·)).map (RP.C01.relabel π) = (L.map (RP.C01.relabel π)).map (RP.C01.relabel π b ||| ·) := by
+        rw [List.map_map, List.map_map]
+        apply List.map_congr_left
+        intro u _
+        simp only [Function.comp, RP.C01.relabel_or π hπ]
+      rw [h2]; exact h1)
+  rw [List.map_map, List.map_map] at key
+  exact key
+
+/-! ## (2) corollaries: equity bits, bucket, and what the fold ranges over -/
+
+/-- the reported `f32` equity is the same value (bit for bit) on the whole suit class -/
+theorem C07_river_equity_invariant (cfg : RP.Eval.Cfg) (π : List Nat) (hπ : π ∈ RP.Gen.permExhaust)
+    (p b : Nat) (ho : RiverObs (shortOf cfg) p b) :
+    riverEquity cfg (shortOf cfg) (RP.C01.relabel π p) (RP.C01.relabel π b) = riverEquity cfg (shortOf cfg) p b ∧
+    (riverEquity cfg (shortOf cfg) (RP.C01.relabel π p) (RP.C01.relabel π b)).toBits =
+      (riverEquity cfg (shortOf cfg) p b).toBits := by
+  simp only [riverEquity, C07_river_counts_invariant cfg π hπ p b ho, and_self]
+
+/-- … and so is the river bucket -/
+theorem C07_river_bucket_invariant (cfg : RP.Eval.Cfg) (π : List Nat) (hπ : π ∈ RP.Gen.permExhaust)
+    (p b : Nat) (ho : RiverObs (shortOf cfg) p b) :
+    riverBucket cfg (shortOf cfg) (RP.C01.relabel π p) (RP.C01.relabel π b) = riverBucket cfg (shortOf cfg) p b := by
+  simp only [riverBucket, (C07_river_equity_invariant cfg π hπ p b ho).1]
+
+/-- a relabeled river observation is a river observation -/
+theorem riverObs_relabel (cfg : RP.Eval.Cfg) (π : List Nat) (hπ : π ∈ RP.Gen.permExhaust)
+    (p b : Nat) (ho : RiverObs (shortOf cfg) p b) :
+    RiverObs (shortOf cfg) (RP.C01.relabel π p) (RP.C01.relabel π b) := by
+  refine ⟨?_, isHand_relabel cfg π hπ 5 p b ho.2⟩
+  have := isHand_relabel cfg π hπ 2 0 p ho.1
+  rw [RP.C01.relabel_zero] at this
+  exact this
+
+/-- number of cards of the deck not among the seven seen ones -/
+def unseen (short : Bool) : Nat := if short then 29 else 45
+
+theorem nFree_river {short : Bool} {kb p b : Nat} (hp : RP.C06.IsHand short 2 0 p) (hb : RP.C06.IsHand short kb p b) :
+    RP.C06.nFree short (p ||| b) + (2 + kb) = if short then 36 else 52 := by
+  have fp := isHand_facts hp
+  have fb := isHand_facts hb
+  have hp' := (RP.C06.isHand_iff _ _ _ _).mp hp
+  have hb' := (RP.C06.isHand_iff _ _ _ _).mp hb
+  have hdisj : p &&& b = 0 := by rw [Nat.and_comm]; exact hb.2.1
+  have hS : p &&& RP.C06.blocked short 0 = 0 := hp'.2.1
+  have hbS : b &&& RP.C06.blocked short 0 = 0 := by
+    have := hb'.2.1
+    rw [RP.C06.blocked_of_deck_hand short p hp.2.2] at this
+    exact (RP.C06.and_or_zero this).2
+  have hblk := RP.C06.blocked_of_deck_hand short _ (seen_inDeck hp hb)
+  unfold RP.C06.nFree
+  rw [hblk, RP.C06.popW_or_disjoint _ _ _ (by rw [Nat.and_or_distrib_right, hS, hbS]; rfl),
+    RP.C06.popW_or_disjoint _ _ _ hdisj, fp.2, fb.2, RP.C06.blocked_zero]
+  cases short
+  · simp only [Bool.false_eq_true, if_false]; rw [popW_zero]; omega
+  · simp only [if_true]
+    have : popW 52 65535 = 16 := by decide
+    rw [this]
+
+/-- **the fold ranges over exactly the 2-subsets of the unseen cards**: the villain holdings of a
+    river observation are, in increasing order and each exactly once, the two-card hands of the
+    deck disjoint from the seven seen cards; there are C(45,2) = 990 of them in the standard deck
+    and C(29,2) = 406 in the short deck -/
+theorem C07_river_holdings (short : Bool) (p b : Nat) (ho : RiverObs short p b) :
+    RP.Hands.hands short 2 (p ||| b) = ksubsets 52 2 (RP.C06.blocked short (p ||| b)) ∧
+    (∀ v, v ∈ RP.Hands.hands short 2 (p ||| b) ↔ RP.C06.IsHand short 2 (p ||| b) v) ∧
+    (RP.Hands.hands short 2 (p ||| b)).Pairwise (· < ·) ∧
+    (RP.Hands.hands short 2 (p ||| b)).length = Nat.choose (unseen short) 2 := by
+  have hc := RP.C06.C06_hands_complete short 2 (p ||| b) (by decide) (by decide)
+  refine ⟨hc, ?_, ?_, ?_⟩
+  · intro v
+    rw [hc]
+    constructor
+    · exact isHand_of_mem
+    · intro hv
+      obtain ⟨h1, h2, h3⟩ := (RP.C06.isHand_iff _ _ _ _).mp hv
+      exact (RP.C06.mem_ksubsets _ _ _ _).mpr ⟨h3, by rw [← RP.C06.popW_eq_of_lt h3 (by omega : 52 ≤ 64)]; exact h1, h2⟩
+  · rw [hc]; exact RP.C06.ksubsets_sorted _ _ _
+  · rw [RP.C06.C06_hands_count short 2 _ (by decide) (by decide)]
+    have := nFree_river ho.1 ho.2
+    congr 1
+    unfold unseen
+    cases short <;> simp at this ⊢ <;> omega
+
+theorem choose_unseen : Nat.choose (unseen false) 2 = 990 ∧ Nat.choose (unseen true) 2 = 406 := by decide
+
+/-- wins ≤ total ≤ number of unseen holdings: at most 990 (standard deck) / 406 (short deck) -/
+theorem C07_river_total_le (cfg : RP.Eval.Cfg) (p b : Nat) (ho : RiverObs (shortOf cfg) p b) :
+    (riverCounts cfg (shortOf cfg) p b).1 ≤ (riverCounts cfg (shortOf cfg) p b).2 ∧
+    (riverCounts cfg (shortOf cfg) p b).2 ≤ Nat.choose (unseen (shortOf cfg)) 2 := by
+  refine ⟨C07_wins_le _ _, ?_⟩
+  have := C07_total_le (RP.Eval.strengthKey cfg (p ||| b))
+    ((RP.Hands.hands (shortOf cfg) 2 (p ||| b)).map (fun v => RP.Eval.strengthKey cfg (b ||| v)))
+  rw [List.length_map, (C07_river_holdings _ p b ho).2.2.2] at this
+  exact this
+
+theorem C07_river_total_le_std (p b : Nat) (ho : RiverObs false p b) :
+    (riverCounts .std false p b).2 ≤ 990 := by
+  have := (C07_river_total_le .std p b ho).2
+  rw [choose_unseen.1] at this
+  exact this
+
 end RP.C07
